@@ -10,6 +10,7 @@ from props.slicing_shared import ASSUMPTIONS, CASE_IMPORTS, TRUSTED  # noqa: F40
 ID = "C01"
 N_CASES = {"quick": 260, "thorough": 6000, "search": 3000}
 SHARD = 60
+EXTRA_TARGETS = ["proofs/P_slicing_tie.vo"]  # imported by the generated tie lemmas only
 RULE = ("54 single-face sweeps (all 27 front/on/behind corner patterns x selected/unselected, random rotation of the "
         "corner order, dyadic oblique planes) + seeded random meshes: 0-12 vertices on a half-integer grid times a "
         "power of two, 0-12 faces incl. degenerate and repeated ones, axis / dyadic / rounded-unit normals, ~30% of "
